@@ -929,7 +929,7 @@ package tcell
 //@     invariant [shape] cbwf(&t.cells) && shapeKept(&t.cells, old(t.cells.w), old(t.cells.h), old(t.cells.cells)) && t.w == t.cells.w && t.h == t.cells.h && t.ti != nil && !isNil(t.tty)
 //@     invariant [widths] forall k int :: 0 <= k && k < len(t.cells.cells) ==> t.cells.cells[k].width >= 0
 //@     decreases t.w - x
-//@   modifies t.cells.cells[*], t.cx, t.cy, t.curstyle, t.colors, t.buf, t.buffering, t.clear
+//@   modifies t.cells.cells[*], t.cx, t.cy, t.curstyle, t.colors, t.buf, t.buffering, t.clear, t.cursorStyleSet, t.cursorColorSet
 
 // ---------------------------------------------------------------------------
 // C04: the setters record what the application asked for (so that Resume re-applies exactly that)
